@@ -232,6 +232,13 @@ def run_obligation(res, prop, st_name, N, findings, scenario="single", cfg=None)
                 reals.append(dict(tag="EXC", text=None, shacl=None, thr=thr, run=r, err=type(e).__name__))
         mismatch = None
         for r, real in zip(runs, reals):
+            if real["tag"] == "EXC" and r["tag"] != "EXC" and viol is None:
+                # the whole real pipeline raises on this concrete graph / configuration although the stage alone did not (readers, profiler, example and
+                # stem bookkeeping, serializer options applied end to end only): a crash on a valid input, confirmed by the fresh-interpreter replay
+                if len(res["violations"]) < 3:
+                    res["violations"].append(payload(ctx, vals, all_thr, "end-to-end witness: extraction raised %s [run %s]" % (real["err"], r["name"])))
+                res["witnesses"] += 1
+                return
             if r["tag"] == "EXC" or real["tag"] == "EXC":
                 if not (r["tag"] == "EXC" and real["tag"] == "EXC" and real["err"] == r["err"][0]):
                     mismatch = "run %s: symbolic %r vs real %r" % (r["name"], r["err"] or "returned", real.get("err") or "returned")
